@@ -167,7 +167,7 @@ func c08SchedScenario(peers []c08Peer) func() schedScenario {
 				}
 				// the server side: its reads, its database look-ups, its writes (the peers' own operations are symmetric)
 				k := kindOf(def)
-				return strings.HasPrefix(k, "db.") || k == "net.Read" || k == "net.Write" || strings.HasPrefix(k, "d.")
+				return strings.HasPrefix(k, "db.") || k == "net.Read" || strings.HasPrefix(k, "net.Write") || strings.HasPrefix(k, "d.")
 			},
 		}
 	}
